@@ -426,12 +426,49 @@ def rule_c13_r4(model: Model) -> RuleResult:
             r.fail(f.qualname, 'a path to the return skips the flush', f.loc(rets[0].ast),
                    "some path returns the converter while conditions are still buffered (they are dropped)")
     r.instances += 1
-    lits = {nz.literal(n.ast, n) for n in cfg.nodes if n.kind == 'cond'}
-    if any(re.match(r'^1 < len\(', a) for a, _p in lits) or helper_ok:
+    # which flush runs for a buffer of n conditions: none for 0, the single one (or all) for 1, all() for 2 and more
+    def which(n_conds: int) -> t.Set[str]:
+        ran = set()
+        for fl in flush_nodes:
+            kind = 'all' if 'Condition.all(*' in unparse(fl.ast) else 'one'
+            holds = True
+            for (cid, lb) in cfg.conditions_of(fl):
+                cn = cfg.nodes[cid]
+                if cn.kind != 'cond' or cn.ast is None:
+                    continue
+                text, pos = nz.literal(cn.ast, cn)
+                v = _eval_len_literal(text, n_conds)
+                if v is None:
+                    continue
+                if v != (pos == (lb == 'T')):
+                    holds = False
+            if holds:
+                ran.add(kind)
+        return ran
+    table = {n_: which(n_) for n_ in (0, 1, 2, 5)}
+    r.sample({'flush per buffer size': {k: sorted(v) for k, v in table.items()}})
+    if helper_ok or (table[0] == set() and table[1] in ({'one'}, {'all'}) and table[2] == {'all'} and table[5] == {'all'}):
         r.ok()
     else:
-        r.fail(f.qualname, 'no >1 test', f.loc(), "several conditions on one annotation are not combined with Condition.all")
+        r.fail(f.qualname, f"flush per buffer size {({k: sorted(v) for k, v in table.items()})}", f.loc(),
+               "several conditions on one annotation are not combined with Condition.all (or an empty / single buffer is handled wrongly)")
     return r
+
+
+def _eval_len_literal(text: str, n: int) -> t.Optional[bool]:
+    """Truth of a literal about the size of the condition buffer (`TRUTHY(buf)`, `1 < len(buf)`, `1 == len(buf)` ...) for size n."""
+    m = re.match(r'^TRUTHY\((ACC\{.*\}|\$?\w+|\[\])\)$', text)
+    if m:
+        return n > 0
+    m = re.match(r'^(\d+) (<|==) len\(.*\)$', text)
+    if m:
+        k = int(m.group(1))
+        return (k < n) if m.group(2) == '<' else (k == n)
+    m = re.match(r'^len\(.*\) (<|==) (\d+)$', text)
+    if m:
+        k = int(m.group(2))
+        return (n < k) if m.group(1) == '<' else (n == k)
+    return None
 
 
 def rule_c13_r5(model: Model) -> RuleResult:
